@@ -128,7 +128,11 @@ def rebuild(d):
     if tag[0] == "nt":
         from ..model.leaftypes import NodeArr
 
-        return {"Point": Point, "Single": Single, "NodeArr": NodeArr}[tag[1]](*new)
+        from ..model import leaftypes as _LT
+
+        classes = {"Point": Point, "Single": Single, "NodeArr": NodeArr}
+        classes.update({c.__name__: c for c in _LT._NT_CLASSES.values()})
+        return classes[tag[1]](*new)
     if tag[0] == "tuple":
         return tuple(new)
     if tag[0] == "list":
